@@ -386,7 +386,11 @@ func GenNum(repo string) (string, error) {
 						arg = "some " + leanIntC(v)
 					}
 				}
-				chain = append(chain, "("+leanStr(name)+", "+arg+")")
+				viaChecks := "false"
+				if strings.HasPrefix(name, "checks.") {
+					viaChecks, name = "true", strings.TrimPrefix(name, "checks.")
+				}
+				chain = append(chain, "("+viaChecks+", "+leanStr(name)+", "+arg+")")
 				return nil
 			}
 			if err := walk(ret.Results[0]); err != nil {
@@ -401,7 +405,7 @@ func GenNum(repo string) (string, error) {
 		if len(ms) == 0 {
 			return "", fmt.Errorf("%s: no numeric methods found", spec.file)
 		}
-		fmt.Fprintf(&b, "/-- `%s`: method → (bound parameter type, the chain of (check constructor / method, argument) it applies;\n    argument `none` = the method's own bound, `some n` = a literal). -/\ndef %s : List (String × String × List (String × Option Int)) := [\n  %s\n]\n\n", spec.recv, spec.def, strings.Join(ms, ",\n  "))
+		fmt.Fprintf(&b, "/-- `%s`: method → (bound parameter type, the chain of (through `checks.`?, check constructor / method, argument) it applies;\n    argument `none` = the method's own bound, `some n` = a literal). -/\ndef %s : List (String × String × List (Bool × String × Option Int)) := [\n  %s\n]\n\n", spec.recv, spec.def, strings.Join(ms, ",\n  "))
 	}
 	b.WriteString("end Gozod.Gen.NumDispatch\n")
 	return b.String(), nil
